@@ -38,8 +38,14 @@ EXTRA5 = '''
 
 This is a late round: many sites are used up (see the list above). Look for changes of these kinds: (a) FEATURE INTERACTION - the property's mechanism meeting another feature of the library: environment variables, command-line overrides, include files, feature flags, config types (make_type) with their own key file, virtual fields and instance methods, dynamic schemas, friendly field names, sensitive masks, `validate=False` loads, `asdict`/`to_tree` options, `reset_value`, `is_value_defined`, stubs; (b) a FORMAT-specific detail - how BSON, XML (type attributes, root tag), YAML (root key, tags, anchors), pickle or JSON (pretty / compact) encode or decode one particular kind of value (empty containers, None, booleans versus integers, bytes, non-ASCII text, nested lists, very large or negative numbers, floats like 1e22 / -0.0 / nan); (c) the SHAPE of the schema - deep nesting, a list of lists, a dict of lists, a config type nested in a config type, a schema reused in two places, a field object reused in two schemas, an empty sub-schema, keys that differ only in case or in '_' versus '-'; (d) an API SPELLING the tests do not use - item versus attribute access, dotted paths, negative indices, slices, keyword versus positional arguments, iterating while mutating, `in`, `len`, `==`, `copy`; (e) a change in cincoconfig/support.py, cincoconfig/stubs.py, a formats module or a field base class whose effect on THIS property only shows indirectly. Do not use `git stash` (the stash is shared between worktrees); to test on the clean tree use `git diff > {d}/mutants/x.diff; git checkout -- cincoconfig; ...; git apply`.
 '''
+EXTRA6 = '''
+
+This is a very late round: ten ideas per property are used up (see the list above) - read it carefully and stay away from those sites and mechanisms. Look for changes of these kinds: (a) the ORDER OF STEPS INSIDE ONE CALL - validate/convert/store/mark/notify reordered, a value stored before a later check of the same call can still fail, a copy taken after instead of before a mutation, a lookup done before instead of after a normalisation; (b) OBJECT LIFE CYCLE - copy.copy / copy.deepcopy / pickle of a Config, Schema, field or proxy object, `==` / hash of ConfigType instances, a Config used after its schema gained a field, a field object shared by two schemas, a ConfigType subclassed or instantiated twice, garbage left in a long-lived object by an earlier call; (c) DEFAULTS - callable defaults, defaults that are Config / DigestValue / proxy objects, defaults of nested or list-item schemas, the difference between "no default", `None` and a falsy default (0, "", [], False); (d) NUMBERS AND TEXT - int versus bool versus float, huge or negative numbers, "-0", " 7 ", "1_000", "0x10", "1e3", NaN / inf, Unicode digits, case folding, combining characters, surrogate escapes, empty strings, NUL, very long values, leading/trailing white space; (e) FLAGS AND OPTIONS rarely combined - `validate=False`, `collect_errors=True`, `virtual=True`, `sensitive_mask=""`, `pretty=False`, `root_key=` / `root_tag=`, `ignore=`, `required=True` together with a default, `dynamic=True` together with declared fields; (f) a change in a module FAR from the property's main code (cincoconfig/formats/*, support.py, stubs.py, abc/base classes, __init__ re-exports, version shims) whose effect on THIS property only shows indirectly. Do not use `git stash` (the stash is shared between worktrees); to test on the clean tree use `git diff > {d}/mutants/x.diff; git checkout -- cincoconfig; ...; git apply`.
+'''
 if rnd.isdigit() and int(rnd) >= 5:
     EXTRA = EXTRA5
+if rnd.isdigit() and int(rnd) >= 6:
+    EXTRA = EXTRA6
 
 props = {}
 for line in open(os.path.join(HERE, "properties.jsonl")):
